@@ -342,6 +342,9 @@ impl Prop for C07 {
     fn assumptions(&self) -> Vec<String> {
         vec!["voices with pairwise distinct cell shapes make 'untouched' unambiguous (C08 allows exchange among identical shapes)".into(), "the per-voice model is trusted: it is checked against the running program before any edit (signature model-mismatch-before-any-edit)".into()]
     }
+    fn level(&self) -> &'static str {
+        "fault_enumeration"
+    }
     fn required_classes(&self, _tier: Tier) -> Vec<&'static str> {
         vec!["edit:insert", "edit:delete", "edit:replace", "edit:constant", "edit:nest", "edit:fault", "backend:vm", "backend:wasm"]
     }
